@@ -492,6 +492,9 @@ func nativeReplay(work, replayPath string) (bool, string) {
 			var line int
 			fmt.Sscanf(pt[i+1:], "%d", &line)
 			f := filepath.Join(repoDir, pt[:i])
+			if filepath.Dir(pt[:i]) != filepath.Clean(rf.Pkg) {
+				continue // vfSched exists only in the package under test
+			}
 			if byFile[f] == nil {
 				byFile[f] = map[int]string{}
 			}
